@@ -117,6 +117,7 @@ type FieldAnn struct {
 	Type, Field string
 	Kind        string // guarded_by, atomic, immutable, confined
 	Lock        string
+	Props       []string
 }
 
 type LockAnn struct {
@@ -375,7 +376,7 @@ func (db *DB) parseClause(text, file string, line int, pkg string, cur **FuncCon
 			return fmt.Errorf("field needs Type.Field kind [lock]")
 		}
 		i := strings.LastIndex(fs[0], ".")
-		fa := &FieldAnn{Type: fs[0][:i], Field: fs[0][i+1:], Kind: fs[1]}
+		fa := &FieldAnn{Type: fs[0][:i], Field: fs[0][i+1:], Kind: fs[1], Props: props}
 		if len(fs) > 2 {
 			fa.Lock = fs[2]
 		}
